@@ -236,13 +236,18 @@ def gen(i, R, tier, force_mode=None):
     if force_mode:
         swarm["mode"] = force_mode
     ops = []
-    P = pairs()
+    P = [p for p in pairs() if p[1] not in G.HEAVY]
+    heavy_pairs = [p for p in pairs() if p[1] in G.HEAVY]
     malformed = [p for p in P if p[1].split(".", 1)[1] in ("unbal", "half", "closers", "arrowparam", "arrowmix", "arrowcall", "deflast")]
     tree_ops, placed = G.base_tree(rng, 3, 10, p_bad=0.2, extras=0.3)
     ops += tree_ops
     if swarm["mode"] == "library":
         n = rng.randint(20, 60)
         focus = rng.sample(P, min(len(P), rng.randint(3, 12)))
+        if heavy_pairs and rng.random() < 0.015:
+            lexer, cid = rng.choice(heavy_pairs)      # one exceptionally expensive text, once or twice
+            for _ in range(rng.randint(1, 2)):
+                ops.append({"op": "analyze", "lexer": lexer, "content": cid, "nonce": G.nonce(rng)})
         for j in range(n):
             r = rng.random()
             if r < 0.25:
